@@ -66,6 +66,31 @@ impl Samp for Pcm24 {
     }
 }
 
+/// A user-defined sample type whose serialised bytes are not its memory image: 16 bits,
+/// big-endian on the wire (same size in memory and serialised).
+#[derive(Clone, Copy, Debug, Default, PartialEq)]
+pub struct Be16(pub u16);
+impl rustradio::Sample for Be16 {
+    type Type = Be16;
+    fn size() -> usize {
+        2
+    }
+    fn parse(data: &[u8]) -> rustradio::Result<Be16> {
+        if data.len() != 2 {
+            return Err(rustradio::Error::msg("Be16 needs 2 bytes"));
+        }
+        Ok(Be16(u16::from_be_bytes([data[0], data[1]])))
+    }
+    fn serialize(&self) -> Vec<u8> {
+        self.0.to_be_bytes().to_vec()
+    }
+}
+impl Samp for Be16 {
+    fn bits(&self) -> u64 {
+        self.0 as u64
+    }
+}
+
 #[derive(Clone, Debug, PartialEq)]
 pub enum InputData {
     U8(Vec<u8>),
@@ -560,6 +585,8 @@ pub struct RunLog {
     /// call number of the first verdict on which a runner would retire the block: a wait on
     /// an ended input that holds less than what is asked for
     pub retirable_since: Option<usize>,
+    /// ... because eof() answered true after a wait verdict
+    pub retired_by_eof: bool,
 }
 
 pub struct DriveOpts {
@@ -875,6 +902,7 @@ pub fn drive(built: &mut Built, schedule: &[Step], opts: &DriveOpts) -> RunLog {
         probes: 0,
         outputs_closed: false,
         retirable_since: None,
+        retired_by_eof: false,
     };
     let keep_calls = opts.keep_calls;
     let nin = built.ins.len().max(1);
@@ -907,7 +935,8 @@ pub fn drive(built: &mut Built, schedule: &[Step], opts: &DriveOpts) -> RunLog {
                 log.findings.push((
                     "premature-retirement".to_string(),
                     format!(
-                        "call #{since} reported a wait on an ended input that held less than it asked for (a runner retires the block on that), yet call #{} produced {:?} more output units",
+                        "call #{since} {} (a runner retires the block on that), yet call #{} produced {:?} more output units",
+                        if log.retired_by_eof { "reported a wait and the block's eof() answered true" } else { "reported a wait on an ended input that held less than it asked for" },
                         log.ncalls, obs.produced
                     ),
                 ));
@@ -919,6 +948,20 @@ pub fn drive(built: &mut Built, schedule: &[Step], opts: &DriveOpts) -> RunLog {
                         log.retirable_since = Some(log.ncalls);
                     }
                 }
+            }
+        }
+        // ... and both runners ask the block's eof() after every wait verdict and retire it on
+        // "true" (only looked at while no output reader is gone: production into a stream
+        // without a reader cannot be observed)
+        if log.retirable_since.is_none()
+            && matches!(obs.verdict, Verdict::WaitStream | Verdict::WaitFunc)
+            && !obs.out_closed.iter().any(|c| *c)
+            && !built.outs.iter().any(|p| p.is_closed())
+        {
+            let block = &mut built.block;
+            if catch(|| block.eof()).unwrap_or(false) {
+                log.retirable_since = Some(log.ncalls);
+                log.retired_by_eof = true;
             }
         }
         let stop = match &obs.verdict {
